@@ -806,3 +806,186 @@ Section General.
     - exfalso. destruct (proj1 (Hc c) (or_introl eq_refl)) as [_ C]. rewrite Hd in C. discriminate.
   Qed.
 End General.
+
+(** * statement forms used by Props/C12.v *)
+Lemma P_locate a p : ax_ok a ->
+  (0 <= p < ax_base a ->
+   exists k lo hi, ax_locate a p = Ok k /\ 0 <= k < ax_count a /\ ax_range a k = Ok (lo, hi) /\ lo <= p < hi /\
+     forall k' lo' hi', 0 <= k' < ax_count a -> ax_range a k' = Ok (lo', hi') -> lo' <= p < hi' -> k' = k) /\
+  (~ 0 <= p < ax_base a -> ax_locate a p = Err EIndex).
+Proof.
+  intros H. split.
+  - intros Hp. destruct (locate_off a p H Hp) as (k & Ek & Hk & Pk).
+    exists k, (ax_off a k), (ax_off a (k + 1)). split; [exact Ek|]. split; [exact Hk|].
+    split; [apply range_off; assumption|]. split; [exact Pk|].
+    intros k' lo' hi' Hk' Er Hin. rewrite (range_off a k' H Hk') in Er. inversion Er; subst lo' hi'.
+    pose proof (locate_ge a p k k' H Hk ltac:(lia) Pk ltac:(lia)).
+    pose proof (locate_le a p k k' H Hk Hk' Pk ltac:(lia)). lia.
+  - intros Hp. unfold ax_locate.
+    assert (E : (p <? 0) || (p >=? ax_base a) = true).
+    { apply orb_true_iff. destruct (Z_lt_ge_dec p 0) as [L|G]; [left; apply Z.ltb_lt; exact L|].
+      right. rewrite Z.geb_leb. apply Z.leb_le. lia. }
+    rewrite E. reflexivity.
+Qed.
+
+Lemma P_locate_2d t NY NX y x : tiling_ok t NY NX ->
+  (0 <= y < NY /\ 0 <= x < NX ->
+   exists iy ix, locate t y x = Ok (iy, ix) /\ ax_locate (t_y t) y = Ok iy /\ ax_locate (t_x t) x = Ok ix) /\
+  (~ (0 <= y < NY /\ 0 <= x < NX) -> locate t y x = Err EIndex).
+Proof.
+  intros (Hy & Hx & By & Bx). split.
+  - intros [Py Px]. rewrite <- By in Py. rewrite <- Bx in Px.
+    destruct (locate_off _ y Hy Py) as (iy & Ey & _). destruct (locate_off _ x Hx Px) as (ix & Ex & _).
+    exists iy, ix. split; [apply locate_2d; assumption | auto].
+  - intros Hn. unfold locate. rewrite By, Bx.
+    assert (E : (y <? 0) || (y >=? NY) || (x <? 0) || (x >=? NX) = true).
+    { destruct (Z_lt_ge_dec y 0) as [L|G]; [apply Z.ltb_lt in L; rewrite L; reflexivity|].
+      destruct (Z_lt_ge_dec y NY) as [L2|G2].
+      2:{ assert (T : (y >=? NY) = true) by (rewrite Z.geb_leb; apply Z.leb_le; lia). rewrite T, orb_true_r. reflexivity. }
+      destruct (Z_lt_ge_dec x 0) as [L3|G3]; [apply Z.ltb_lt in L3; rewrite L3, orb_true_r; reflexivity|].
+      assert (T : (x >=? NX) = true) by (rewrite Z.geb_leb; apply Z.leb_le; lia). rewrite T, orb_true_r. reflexivity. }
+    rewrite E. reflexivity.
+Qed.
+
+Lemma P_pix_query t NY NX bx1 by1 bx2 by2 : tiling_ok t NY NX ->
+  exists l, tiles_from_pix_bbox t NY NX (bx1, by1, bx2, by2) = Ok l /\
+    (forall iy ix, In (iy, ix) l -> 0 <= iy < ax_count (t_y t) /\ 0 <= ix < ax_count (t_x t)) /\
+    (forall iy ix ylo yhi xlo xhi,
+        0 <= iy < ax_count (t_y t) -> 0 <= ix < ax_count (t_x t) ->
+        ax_range (t_y t) iy = Ok (ylo, yhi) -> ax_range (t_x t) ix = Ok (xlo, xhi) ->
+        ylo < yhi -> xlo < xhi ->
+        (inject_Z xlo < bx2)%Q -> (bx1 < inject_Z xhi)%Q ->
+        (inject_Z ylo < by2)%Q -> (by1 < inject_Z yhi)%Q ->
+        In (iy, ix) l).
+Proof.
+  intros Ht. destruct (pix_query_complete t NY NX bx1 by1 bx2 by2 Ht) as (l & E & A & B & _). eauto.
+Qed.
+
+(** the same with a witness point: some point lies strictly inside the box and strictly inside the tile *)
+Lemma P_pix_query_point t NY NX bx1 by1 bx2 by2 l iy ix ylo yhi xlo xhi (u v : Q) : tiling_ok t NY NX ->
+  tiles_from_pix_bbox t NY NX (bx1, by1, bx2, by2) = Ok l ->
+  0 <= iy < ax_count (t_y t) -> 0 <= ix < ax_count (t_x t) ->
+  ax_range (t_y t) iy = Ok (ylo, yhi) -> ax_range (t_x t) ix = Ok (xlo, xhi) ->
+  (bx1 < u < bx2)%Q -> (by1 < v < by2)%Q ->
+  (inject_Z xlo < u < inject_Z xhi)%Q -> (inject_Z ylo < v < inject_Z yhi)%Q ->
+  In (iy, ix) l.
+Proof.
+  intros Ht El Hiy Hix Ry Rx U V TU TV.
+  destruct (pix_query_complete t NY NX bx1 by1 bx2 by2 Ht) as (l' & E & _ & B & _).
+  rewrite El in E. inversion E; subst l'.
+  apply (B iy ix ylo yhi xlo xhi); try assumption; try (rewrite Zlt_Qlt); lra.
+Qed.
+
+Lemma P_linear_complete dst src NYd NXd NYs NXs A g dy dx sy sx dylo dyhi dxlo dxhi sylo syhi sxlo sxhi :
+  tiling_ok dst NYd NXd -> tiling_ok src NYs NXs ->
+  grid_intersect_linear dst src NYs NXs A = Ok g ->
+  0 <= dy < ax_count (t_y dst) -> 0 <= dx < ax_count (t_x dst) ->
+  0 <= sy < ax_count (t_y src) -> 0 <= sx < ax_count (t_x src) ->
+  ax_range (t_y dst) dy = Ok (dylo, dyhi) -> ax_range (t_x dst) dx = Ok (dxlo, dxhi) ->
+  ax_range (t_y src) sy = Ok (sylo, syhi) -> ax_range (t_x src) sx = Ok (sxlo, sxhi) ->
+  sylo < syhi -> sxlo < sxhi ->
+  (inject_Z sxlo < mhi (a_sx A) (a_tx A) dxlo dxhi)%Q -> (mlo (a_sx A) (a_tx A) dxlo dxhi < inject_Z sxhi)%Q ->
+  (inject_Z sylo < mhi (a_sy A) (a_ty A) dylo dyhi)%Q -> (mlo (a_sy A) (a_ty A) dylo dyhi < inject_Z syhi)%Q ->
+  edge g (dy, dx) (sy, sx).
+Proof.
+  intros Hd Hs Eg Hdy Hdx Hsy Hsx R1 R2 R3 R4 N1 N2 X1 X2 Y1 Y2.
+  pose proof Hd as (Hdy' & Hdx' & _). pose proof Hs as (Hsy' & Hsx' & _).
+  rewrite (range_off _ _ Hdy' Hdy) in R1. rewrite (range_off _ _ Hdx' Hdx) in R2.
+  rewrite (range_off _ _ Hsy' Hsy) in R3. rewrite (range_off _ _ Hsx' Hsx) in R4.
+  inversion R1; inversion R2; inversion R3; inversion R4; subst.
+  apply (linear_graph_complete dst src NYd NXd NYs NXs A g dy dx sy sx); assumption.
+Qed.
+
+(** point form: a point strictly inside the destination tile is mapped strictly inside the source tile *)
+Lemma P_linear_complete_point dst src NYd NXd NYs NXs A g dy dx sy sx dylo dyhi dxlo dxhi sylo syhi sxlo sxhi (u v : Q) :
+  tiling_ok dst NYd NXd -> tiling_ok src NYs NXs ->
+  grid_intersect_linear dst src NYs NXs A = Ok g ->
+  0 <= dy < ax_count (t_y dst) -> 0 <= dx < ax_count (t_x dst) ->
+  0 <= sy < ax_count (t_y src) -> 0 <= sx < ax_count (t_x src) ->
+  ax_range (t_y dst) dy = Ok (dylo, dyhi) -> ax_range (t_x dst) dx = Ok (dxlo, dxhi) ->
+  ax_range (t_y src) sy = Ok (sylo, syhi) -> ax_range (t_x src) sx = Ok (sxlo, sxhi) ->
+  (inject_Z dxlo <= u <= inject_Z dxhi)%Q -> (inject_Z dylo <= v <= inject_Z dyhi)%Q ->
+  (inject_Z sxlo < a_sx A * u + a_tx A < inject_Z sxhi)%Q ->
+  (inject_Z sylo < a_sy A * v + a_ty A < inject_Z syhi)%Q ->
+  edge g (dy, dx) (sy, sx).
+Proof.
+  intros Hd Hs Eg Hdy Hdx Hsy Hsx R1 R2 R3 R4 U V MU MV.
+  assert (Bt : forall s t (lo hi : Z) (w : Q), (inject_Z lo <= w <= inject_Z hi)%Q ->
+               (mlo s t lo hi <= s * w + t <= mhi s t lo hi)%Q).
+  { intros s t lo hi w Hw. unfold mlo, mhi, fmap.
+    destruct (Qlt_le_dec s 0) as [Neg | Pos].
+    - assert (s * inject_Z hi <= s * w)%Q by nra. assert (s * w <= s * inject_Z lo)%Q by nra.
+      destruct (qmin_spec (s * inject_Z lo + t) (s * inject_Z hi + t)) as [[? ->] | [? ->]];
+        destruct (qmax_spec (s * inject_Z lo + t) (s * inject_Z hi + t)) as [[? ->] | [? ->]]; lra.
+    - assert (s * w <= s * inject_Z hi)%Q by nra. assert (s * inject_Z lo <= s * w)%Q by nra.
+      destruct (qmin_spec (s * inject_Z lo + t) (s * inject_Z hi + t)) as [[? ->] | [? ->]];
+        destruct (qmax_spec (s * inject_Z lo + t) (s * inject_Z hi + t)) as [[? ->] | [? ->]]; lra. }
+  pose proof (Bt (a_sx A) (a_tx A) dxlo dxhi u U). pose proof (Bt (a_sy A) (a_ty A) dylo dyhi v V).
+  apply (P_linear_complete dst src NYd NXd NYs NXs A g dy dx sy sx dylo dyhi dxlo dxhi sylo syhi sxlo sxhi);
+    try assumption; try (rewrite Zlt_Qlt); lra.
+Qed.
+
+Lemma P_linear_sound dst src NYd NXd NYs NXs A g dy dx sy sx l dylo dyhi dxlo dxhi :
+  tiling_ok dst NYd NXd -> tiling_ok src NYs NXs ->
+  grid_intersect_linear dst src NYs NXs A = Ok g -> In ((dy, dx), l) g -> In (sy, sx) l ->
+  ax_range (t_y dst) dy = Ok (dylo, dyhi) -> ax_range (t_x dst) dx = Ok (dxlo, dxhi) ->
+  0 <= dy < ax_count (t_y dst) /\ 0 <= dx < ax_count (t_x dst) /\
+  0 <= sy < ax_count (t_y src) /\ 0 <= sx < ax_count (t_x src) /\
+  exists sylo syhi sxlo sxhi,
+    ax_range (t_y src) sy = Ok (sylo, syhi) /\ ax_range (t_x src) sx = Ok (sxlo, sxhi) /\
+    (inject_Z sxlo < mhi (a_sx A) (a_tx A) dxlo dxhi + 1)%Q /\ (mlo (a_sx A) (a_tx A) dxlo dxhi - 1 < inject_Z sxhi)%Q /\
+    (inject_Z sylo < mhi (a_sy A) (a_ty A) dylo dyhi + 1)%Q /\ (mlo (a_sy A) (a_ty A) dylo dyhi - 1 < inject_Z syhi)%Q.
+Proof.
+  intros Hd Hs Eg Hin Hl R1 R2.
+  destruct (res_map_graph _ _ _ Eg) as (_ & I1 & _).
+  destruct (I1 _ _ Hin) as [Hall El]. apply all_tiles_In in Hall. destruct Hall as [Hdy Hdx].
+  destruct (linear_tile_complete dst src NYd NXd NYs NXs A dy dx Hd Hs Hdy Hdx) as (l' & El' & V & _ & S).
+  rewrite El in El'. inversion El'; subst l'.
+  destruct (V _ _ Hl) as [Hsy Hsx]. destruct (S _ _ Hl) as (S1 & S2 & S3 & S4).
+  pose proof Hd as (Hdy' & Hdx' & _). pose proof Hs as (Hsy' & Hsx' & _).
+  rewrite (range_off _ _ Hdy' Hdy) in R1. rewrite (range_off _ _ Hdx' Hdx) in R2.
+  inversion R1; inversion R2; subst.
+  repeat split; try lia.
+  exists (ax_off (t_y src) sy), (ax_off (t_y src) (sy + 1)), (ax_off (t_x src) sx), (ax_off (t_x src) (sx + 1)).
+  split; [apply range_off; assumption|]. split; [apply range_off; assumption|]. auto.
+Qed.
+
+Lemma P_linear_tol dst src NYd NXd NYs NXs A A0 delta g dy dx sy sx dylo dyhi dxlo dxhi sylo syhi sxlo sxhi :
+  tiling_ok dst NYd NXd -> tiling_ok src NYs NXs ->
+  grid_intersect_linear dst src NYs NXs A = Ok g ->
+  0 <= dy < ax_count (t_y dst) -> 0 <= dx < ax_count (t_x dst) ->
+  0 <= sy < ax_count (t_y src) -> 0 <= sx < ax_count (t_x src) ->
+  ax_range (t_y dst) dy = Ok (dylo, dyhi) -> ax_range (t_x dst) dx = Ok (dxlo, dxhi) ->
+  ax_range (t_y src) sy = Ok (sylo, syhi) -> ax_range (t_x src) sx = Ok (sxlo, sxhi) ->
+  sylo < syhi -> sxlo < sxhi ->
+  (forall x, x = dxlo \/ x = dxhi -> Qabs (fmap (a_sx A) (a_tx A) x - fmap (a_sx A0) (a_tx A0) x) <= delta)%Q ->
+  (forall y, y = dylo \/ y = dyhi -> Qabs (fmap (a_sy A) (a_ty A) y - fmap (a_sy A0) (a_ty A0) y) <= delta)%Q ->
+  (inject_Z sxlo + delta < mhi (a_sx A0) (a_tx A0) dxlo dxhi)%Q -> (mlo (a_sx A0) (a_tx A0) dxlo dxhi + delta < inject_Z sxhi)%Q ->
+  (inject_Z sylo + delta < mhi (a_sy A0) (a_ty A0) dylo dyhi)%Q -> (mlo (a_sy A0) (a_ty A0) dylo dyhi + delta < inject_Z syhi)%Q ->
+  edge g (dy, dx) (sy, sx).
+Proof.
+  intros Hd Hs Eg Hdy Hdx Hsy Hsx R1 R2 R3 R4 N1 N2 Cx Cy X1 X2 Y1 Y2.
+  pose proof Hd as (Hdy' & Hdx' & _). pose proof Hs as (Hsy' & Hsx' & _).
+  rewrite (range_off _ _ Hdy' Hdy) in R1. rewrite (range_off _ _ Hdx' Hdx) in R2.
+  rewrite (range_off _ _ Hsy' Hsy) in R3. rewrite (range_off _ _ Hsx' Hsx) in R4.
+  inversion R1; inversion R2; inversion R3; inversion R4; subst.
+  apply (linear_graph_complete_tol dst src NYd NXd NYs NXs A A0 delta g dy dx sy sx); assumption.
+Qed.
+
+(** F11: the loop body before the repair reports the nearest edge tiles for rasters that do not overlap *)
+Lemma F11_prefix_refuted :
+  exists dst src NYd NXd NYs NXs A g,
+    tiling_ok dst NYd NXd /\ tiling_ok src NYs NXs /\
+    (mhi (a_sx A) (a_tx A) 0 NXd <= 0)%Q /\
+    grid_intersect_linear_prefix dst src NYs NXs A = Ok g /\
+    edge g (0, 0) (0, 0).
+Proof.
+  exists (mkTiling (AReg 8 4) (AReg 8 4)), (mkTiling (AReg 8 4) (AReg 8 4)), 8, 8, 8, 8,
+         (mkST 1 (-100 # 1) 1 0).
+  eexists. split; [|split; [|split; [|split]]].
+  - repeat split; simpl; lia.
+  - repeat split; simpl; lia.
+  - vm_compute. discriminate.
+  - vm_compute. reflexivity.
+  - eexists. split; [left; reflexivity | left; reflexivity].
+Qed.
